@@ -421,7 +421,10 @@ def run_check(pid: str, tier: str, verif_seed: int, *, runs: Optional[int] = Non
             r = rs[0]
             case = r["case"]
             os.makedirs(os.path.join(VERIF_DIR, "replays"), exist_ok=True)
-            small, evals = minimise(pid, case, sig, budget_s=60 if tier == "quick" else 240)
+            if os.environ.get("ZSIM_NO_MINIMISE"):
+                small, evals = case, 0  # sensitivity sweeps only need the verdict
+            else:
+                small, evals = minimise(pid, case, sig, budget_s=60 if tier == "quick" else 240)
             res = execute_case(pid, small)
             v = next((x for x in _all_violations(res) if signature(pid, x) == sig), r["violation"])
             path = os.path.join(VERIF_DIR, "replays", f"{pid}-{verif_seed}-{r['idx']}.json")
